@@ -24,6 +24,8 @@ def specs(tier):
          # the analytic circular family with a sheared safety factor q(r) = a0 + a1 r^2
          gridlab.circular_spec(options={"number_of_processors": 1, "R0": 2.3, "B0": 3.2, "q_coefficients": [1.5, 2.0],
                                         "r_inner": 0.3, "r_outer": 0.9, "nx": 5, "ny": 12}, extract=ex)]
+    # a grid on which no two options that could be confused coincide (see gridlab.odd_spec)
+    S.append(gridlab.odd_spec("lsn", True, extract=ex))
     if tier == "thorough":
         S += [gridlab.tokamak_spec("cdn", fpol="linear", pressure="parab", options={"orthogonal": False}, extract=ex),
               gridlab.tokamak_spec("usn", fpol="negconst", pressure="parab", extract=ex),
